@@ -37,6 +37,12 @@ void env_track_temp (Elem *cell)
   WP[WT] = cell; WS[WT] = S_RAW;
 }
 
+void env_untrack_temp (void)
+{
+  __CPROVER_assert (WS[WT] == S_RAW, "[C03] temporary destroyed while its element is still alive");
+  WP[WT] = 0;
+}
+
 /* ---- element operations -------------------------------------------------------------------- */
 void env_elem_construct_default (Elem *p)
 {
